@@ -433,7 +433,9 @@ func vbRunInput(res *vbResult, eps []vbEP, b []byte, only map[string]bool) {
 	if res.Inputs%8 == 0 {
 		var ms runtime.MemStats
 		runtime.ReadMemStats(&ms)
-		if ms.HeapAlloc > 1<<50 {
+		if ms.HeapAlloc > 1<<30 {
+			// the collector is off (see vbMain); collect by hand once the garbage of the executions
+			// so far passes 1 GiB, so that 16 shards fit into memory side by side
 			debug.FreeOSMemory()
 		}
 	}
